@@ -60,6 +60,12 @@ def check_a(ck, repo):
         beta = [c for c in ast.walk(l) if isinstance(c, ast.Call) and isinstance(c.func, ast.Attribute) and c.func.attr == "node_beta"]
         okb = len(beta) == 1 and src_of(beta[0].args[0]) == f"self.betas_[{iv}, :]"
         ck.verdict(okb, "C09.a", fr, beta[0] if beta else "dec.node_beta(self.betas_[i, :])", "coefficients of leaf i stored in row i of betas_", "coefficients are not stored in the row of their own leaf")
+        # every leaf goes through the least-squares solver: no early exit from the loop
+        # body before node_beta, no other store into betas_
+        early = [x for x in ast.walk(l) if isinstance(x, (ast.Continue, ast.Break, ast.Return)) and beta and x.lineno < beta[0].lineno]
+        ck.verdict(not early, "C09.a", fr, early[0] if early else "leaf loop body reaches node_beta", "every leaf's coefficients come from the least-squares solver", "some leaves skip the least-squares solve (early continue/break): their prediction is not the OLS fit of the leaf's rows")
+        stores = [x for x in own_nodes(fr.node) if isinstance(x, (ast.Assign, ast.AugAssign)) and any(isinstance(t, ast.Subscript) and src_of(t.value) == "self.betas_" for t in (x.targets if isinstance(x, ast.Assign) else [x.target]))]
+        ck.verdict(not stores, "C09.a", fr, stores[0] if stores else "no direct store into self.betas_[...]", "betas_ rows are written only by node_beta", "betas_ is also written directly, bypassing the per-leaf least squares")
     plv = [s for s in own_nodes(fr.node) if isinstance(s, ast.Assign) and src_of(s.targets[0]) == "pred_leaves"]
     ck.verdict(len(plv) == 1 and src_of(plv[0].value) == "self.predict_leaves(X)", "C09.a", fr, plv[0] if plv else "pred_leaves = self.predict_leaves(X)", "training rows are numbered by predict_leaves", "fit does not number leaves through predict_leaves")
     shp = [s for s in own_nodes(fr.node) if isinstance(s, ast.Assign) and any(is_self_attr(t, "betas_") for t in s.targets)]
@@ -74,6 +80,11 @@ def check_a(ck, repo):
         ones = [s for s in own_nodes(pr.node) if isinstance(s, ast.Assign) and src_of(s.targets[0]) == src_of(b) and "numpy.ones" in src_of(s.value)]
         okh = src_of(a) == "X" and bool(ones)
     ck.verdict(okh, "C09.a", pr, hs[0] if hs else "numpy.hstack([X, ones])", "the intercept column is appended after the features", "the constant column is not appended last: coefficients are applied to the wrong features")
+    # the features multiplied by betas_ are the caller's values, not a float32-rounded copy
+    LOSSY = ("_validate_X_predict", "float32")
+    rebinds = [x for x in own_nodes(pr.node) if isinstance(x, ast.Assign) and any(isinstance(t, ast.Name) and t.id == "X" for t in x.targets)]
+    lossy = [x for x in rebinds if any(k in src_of(x.value) for k in LOSSY)]
+    ck.verdict(not lossy, "C09.a", pr, lossy[0] if lossy else "X is not re-typed before the linear model", "coefficients fitted on float64 rows are applied to the same values", "X is converted to the tree's float32 input type before the per-leaf linear model is applied: betas_ were fitted on float64 rows, so predictions differ from the least-squares fit evaluated at the row")
     dots = [c for c in own_nodes_incl_lambda(pr.node) if isinstance(c, ast.Call) and src_of(c.func) == "numpy.dot"]
     okd = False
     if len(dots) == 1 and len(dots[0].args) == 2:
@@ -273,7 +284,7 @@ def run(ck):
         "the analysis says nothing about the built extension binaries (they cannot be built offline here)",
         "Python semantics of the statement kinds used",
     ]
-    ck.require_count("C09.a", 10, "co-index, mask, betas row, numbering x2, shape, hstack, dot, predict_leaves, Cython constant feature, nbvar")
+    ck.require_count("C09.a", 13, "co-index, mask, betas row, numbering x2, shape, hstack, dot, predict_leaves, Cython constant feature, nbvar")
     ck.require_count("C09.b", 11, "mean ranges x3, mse triples x3, left/right, update/reset/reverse_reset, improvement")
     ck.require_count("C09.c", 14, "zero-fill, fill, 8 reads with buffer/range checks, _mse, _mean")
 
@@ -292,6 +303,10 @@ WITNESSES = [
     {"name": "fast-no-zero-fill", "file": FAST, "rule": "C09.c", "old": "        for i in range(0, self.n_samples):\n", "new": "        for i in range(start, end):\n"},
     {"name": "fast-unguarded-lower", "file": FAST, "rule": "C09.c", "old": "(self.sample_wy2_left[start-1] if start > 0 else 0)", "new": "self.sample_wy2_left[start-1]"},
     {"name": "fast-off-by-one-hi", "file": FAST, "rule": "C09.c", "old": "cdef float64_t squ = self.sample_wy2_left[end-1] -", "new": "cdef float64_t squ = self.sample_wy2_left[end] -"},
+]
+WITNESSES += [
+    {"name": "reglin-small-leaf-constant", "file": _P, "rule": "C09.a", "old": "            ys = ys.copy()\n", "new": "            ys = ys.copy()\n            if xs.shape[0] <= xs.shape[1]:\n                self.betas_[i, :-1] = 0\n                self.betas_[i, -1] = ys.mean()\n                continue\n"},
+    {"name": "predict-float32-features", "file": _P, "rule": "C09.a", "old": "        leaves = self.predict_leaves(X)\n        pred = numpy.ones((X.shape[0], 1))\n", "new": "        X = self._validate_X_predict(X, check_input)\n        leaves = self.predict_leaves(X)\n        pred = numpy.ones((X.shape[0], 1))\n"},
 ]
 TWINS = [
     {"name": "reglin-mask-flipped-eq", "file": _P, "old": "            ind = pred_leaves == i\n", "new": "            ind = i == pred_leaves\n"},
